@@ -111,7 +111,13 @@ impl<'a, 'b> G<'a, 'b> {
     }
 
     fn arg(&mut self) -> String {
-        match self.t.weighted(&[4, 4, 1, 1, 1]) {
+        match self.t.weighted(&[4, 4, 1, 1, 1, 2]) {
+            5 => {
+                // no call in sight, but evaluating it is observable: a field read, an index or an
+                // operator on a value with metamethods (LOUD__ is defined by the prelude)
+                self.st.side_effect_args += 1;
+                ["LOUD__.volume", "LOUD__[1]", "\"mix \" .. LOUD__", "LOUD__ .. \"x\"", "-LOUD__", "LOUD__ + 1", "#LOUD__", "LOUD__.a.b"][self.t.choose(8)].to_string()
+            }
             0 => self.lit(),
             1 => {
                 self.st.side_effect_args += 1;
@@ -402,9 +408,22 @@ pub struct C17Program {
 pub fn gen(t: &mut Tape, avoid_require_mode_object: bool) -> C17Program {
     let value = gen_value(t, avoid_require_mode_object);
     let mut g = G { t, out: String::new(), shadow: vec![vec![]], inj_kind: value.kind.clone(), depth: 0, counter: 0, st: C17Stats::default(), has_t: false };
+    // a value whose every operation is observable
+    g.line("local LOUD__ = setmetatable({}, { __index = function(_, k) emit(\"index\", k) return { b = 2 } end, __concat = function() emit(\"concat\") return \"c\" end, __unm = function() emit(\"unm\") return 1 end, __add = function() emit(\"add\") return 2 end, __len = function() emit(\"len\") return 3 end })");
+    // other globals, read through _G with a string key like the injected one
+    g.line("OTHER_FLAG = 41 _G.FLAG2 = \"two\"");
     let n = 3 + g.t.choose(10);
     for _ in 0..n {
         g.stmt();
+        if g.t.bool(40) && g.shadowed("_G").is_none() {
+            g.st.expr_position += 1;
+            let other = ["_G[\"OTHER_FLAG\"]", "_G[\"FLAG2\"]", "_G[\"UNSET_FLAG\"]", "_G.OTHER_FLAG", "_G[\"FLAGX\"]"][g.t.choose(5)];
+            match g.t.choose(3) {
+                0 => g.line(&format!("emit({})", other)),
+                1 => g.line(&format!("if {} then emit(\"other set\") else emit(\"other unset\") end", other)),
+                _ => g.line(&format!("local o = {} emit(o, {})", other, other)),
+            }
+        }
     }
     g.line("emit(\"end\")");
     C17Program { source: g.out, value, stats: g.st }
